@@ -139,7 +139,7 @@ type Machine struct {
 	hits       Hits
 	exitsTotal int64 // completed runs of all rerunners
 	seq        int64 // event counter (registrations and cleanups)
-	stragglers sync.WaitGroup
+	stragglers int32 // goroutines left behind by runs that have not finished yet
 }
 
 // Hits counts the interesting interleavings that actually happened.
@@ -189,6 +189,17 @@ func (rn *runner) registered(run int, info *resInfo) {
 	rn.mu.Lock()
 	rn.curRegs = append(rn.curRegs, reg{info, sq})
 	rn.mu.Unlock()
+}
+
+func (m *Machine) waitStragglers(d time.Duration) bool {
+	deadline := time.Now().Add(d)
+	for atomic.LoadInt32(&m.stragglers) != 0 {
+		if time.Now().After(deadline) {
+			return false
+		}
+		time.Sleep(100 * time.Microsecond)
+	}
+	return true
 }
 
 // totals: run entries and exits over all rerunners.
@@ -364,9 +375,9 @@ func (rn *runner) compute(ctx context.Context) (interface{}, error) {
 		}
 	}
 	if rn.comp.StragglerRun == run && len(rn.comp.Children) > 0 {
-		m.stragglers.Add(1)
+		atomic.AddInt32(&m.stragglers, 1)
 		go func() {
-			defer m.stragglers.Done()
+			defer atomic.AddInt32(&m.stragglers, -1)
 			time.Sleep(time.Duration(rn.comp.StragglerUs) * time.Microsecond)
 			atomic.AddInt32(&m.hits.Straggler, 1)
 			m.child(ctx, rn.comp.Children[0], rn, -1)
@@ -740,14 +751,8 @@ func Run(c Case, checkCleanup bool) (Result, string, error) {
 		}
 	}
 	// stop everything; no run may start afterwards
-	{
-		sd := make(chan struct{})
-		go func() { m.stragglers.Wait(); close(sd) }()
-		select {
-		case <-sd:
-		case <-time.After(5 * time.Second):
-			return res, "straggler-stuck", fmt.Errorf("a goroutine that called reactive.Cache with the context of a finished run is still blocked 5s later")
-		}
+	if !m.waitStragglers(5 * time.Second) {
+		return res, "straggler-stuck", fmt.Errorf("a goroutine that called reactive.Cache with the context of a finished run is still blocked 5s later")
 	}
 	for _, rn := range m.runners {
 		rn.rr.Stop()
@@ -804,6 +809,7 @@ func Run(c Case, checkCleanup bool) (Result, string, error) {
 			return res, "leak", errors.New(bad)
 		}
 	}
+	m.waitStragglers(5 * time.Second) // (runs that started after the first wait may have left one more behind)
 	res.Hits = m.hits
 	h := m.hits
 	for k, v := range map[string]bool{"write-after-dep-during-run": h.WriteDuringRunAfterDep > 0, "write-between-capture-and-add": h.WriteMid > 0,
